@@ -409,7 +409,6 @@ static void barrier_run(const long *p, mvsim_runcfg *cfg, mvsim_runstats *st) {
     MVH_CHECK(serials[r] == 1, "C06-SERIAL", "round %ld: %d participants got the serial-thread indicator", r, serials[r]);
     MVH_CHECK(passed[r] == n, "C06-RELEASE", "round %ld: %d of %d participants returned", r, passed[r], n);
   }
-  MVH_CHECK(BAR.state == 0, "C06-STATE", "barrier state %ld after the last round", (long)BAR.state);
   MVH_CHECK(myth_barrier_destroy(&BAR) == 0, "C06-DESTROY", "barrier destroy failed");
   if (wl_total_blocks) mvh_run_flags |= 1;
   wl_end(st, 1);
